@@ -18,6 +18,7 @@ Two layers:
 -/
 import SpecModel.Props.ExpandCore
 import SpecModel.Expand.Check
+import SpecModel.Expand.SideConditions
 
 namespace SpecModel.Props.C02
 open SpecModel.Expand SpecModel.Props
@@ -63,5 +64,19 @@ example : checkExp ExpandCore.Wx [] 40 ExpandCore.tx
     (.node "root" [.node "a" [.node "b" [.ref 0], .node "c" [.node "WRONG" []]], .node "c" [.node "d" []]]) = false := by
   decide
 example : checkWorld ExpandCore.Wx ExpandCore.Wx' 40 ExpandCore.ksx = true := by decide
+
+
+/-! ### Side conditions on the shape of expander.go (regenerated facts, `decide`) -/
+
+/-- every schema keyword that can hold a sub-schema (regenerated struct table of SchemaProps) is a position
+`expandSchema` / `expandItems` recurse into (regenerated from their AST), and conversely -/
+theorem side_positions_complete :
+    SpecModel.Expand.Side.positionsComplete SpecModel.Gen.structs SpecModel.Gen.expandPositions = true := by decide
+
+theorem side_sections_complete : SpecModel.Expand.Side.sectionsComplete SpecModel.Gen.specSections = true := by decide
+
+theorem side_operations_complete :
+    SpecModel.Expand.Side.operationsComplete SpecModel.Gen.pathItemOperations SpecModel.Gen.pathItemOperationFields = true := by
+  decide
 
 end SpecModel.Props.C02
